@@ -233,6 +233,7 @@ class Machine:
         self.fresh_n = 0
         self.side = []             # side constraints introduced by models (e.g. sqrt witnesses): list of bool terms
         self.calls_log = []
+        self.buf_vars = {}         # abstract sample buffers: (('os', idx term) | ('any', idx term, version)) -> element variable
 
     def fresh(self, base, sort='f'):
         self.fresh_n += 1
@@ -373,6 +374,11 @@ class Machine:
                 path.append(p[1])
             elif p[0] == 'down':
                 pass
+            elif p[0] == 'index' and re.fullmatch(r'_\d+', p[1]):
+                iv = self.read(st, (fid, p[1]), [])
+                if iv[0] != 'i':
+                    raise Stuck('index by %s' % show(iv))
+                path.append(('idx', iv[1]))
             else:
                 raise Stuck('projection %r' % (p,))
         return cur, path
@@ -383,6 +389,11 @@ class Machine:
             raise Stuck('read of unset local %s' % cell[1])
         v = loc[cell[1]]
         for i in path:
+            if isinstance(i, tuple) and i[0] == 'idx':
+                if v[0] != 'buf':
+                    raise Stuck('indexing into %s' % show(v))
+                v = ('f', self.buf_elem(v, i[1]))
+                continue
             if v[0] in ('adt', 'symenum'):
                 if i >= len(v[3]):
                     raise Stuck('field %d of %s' % (i, show(v)))
@@ -647,6 +658,10 @@ class Machine:
                 return ('b', T.not_(a[1]))
             if m.group(1) == 'Neg':
                 return ('f', T.mk('fneg', a[1])) if a[0] == 'f' else ('i', T.mk('isub', T.iconst(0), a[1]))
+            if m.group(1) == 'PtrMetadata':
+                b = self.deref(st, a)
+                if b[0] == 'buf':
+                    return ('i', b[1])
             raise Stuck('rvalue ' + rhs)
         m = re.match(r'(.*) as (\w+) \((\w+)(?:\(.*\))?\)$', rhs)
         if m:
@@ -672,7 +687,7 @@ class Machine:
             if v[0] == 'symenum':
                 return ('i', v[2])
             raise Stuck('discriminant of %s' % show(v))
-        m = re.match(r'&(?:mut |raw const |raw mut )?(.*)$', rhs)
+        m = re.match(r'&(?:mut |raw const |raw mut )?(?:\(fake\) )?(.*)$', rhs)
         if m:
             cell, path = self.resolve(st, fid, parse_place(m.group(1)))
             return ('ref', cell[0], cell[1], tuple(path))
@@ -736,6 +751,18 @@ class Machine:
             if op in ('Ne', 'BitXor'):
                 return ('b', T.not_(T.mk('beq', a[1], b[1])))
         raise Stuck('binop %s on %s, %s' % (op, show(a), show(b)))
+
+    # ---- abstract sample buffers: ('buf', len term, guarantee, version). guarantee: 'all' (sorted ascending) or a frozenset of index terms
+    # whose positions are known to hold their own order statistic (after a selection); elements are read as float variables:
+    # OS(i) = "the i-th smallest value of the sample" for a guaranteed position, a fresh unconstrained value otherwise.
+    def buf_elem(self, buf, idx):
+        if buf[2] == 'all' or idx in buf[2]:
+            key = ('os', idx)
+        else:
+            key = ('any', idx, buf[3])
+        if key not in self.buf_vars:
+            self.buf_vars[key] = T.var('%s%d' % ('OS' if key[0] == 'os' else 'UNSORTED', len(self.buf_vars)))
+        return self.buf_vars[key]
 
     # ---- closures and thread-local cells
     def closure_fn(self, clos):
